@@ -81,6 +81,9 @@ func EncryptX25519(pubKey *[32]byte, msg []byte) []byte {
 func DecryptX25519(privKey, pubKey *[32]byte, encrypted []byte) ([]byte, error) {
 	var epk [32]byte
 	var nonce [24]byte
+	if len(encrypted) < len(epk) {
+		return nil, ErrX25519DecryptionFailed
+	}
 	copy(epk[:], encrypted[:32])
 
 	nonceWriter, _ := blake2b.New(24, nil)
